@@ -397,7 +397,13 @@ class CompiledRouter:
               b. For complex nodes, re.compile() raises a nasty error
         3. Check that when the converter syntax is used, the named
            converter exists.
+        4. Check that there is no whitespace outside of the field
+           expressions of this segment (a field expression that spans a
+           '/' in the template is not a field of any segment).
         """
+
+        if re.search(r'\s', _FIELD_PATTERN.sub('{FIELD}', segment)):
+            raise UnacceptableRouteError('URI templates may not include whitespace.')
 
         for field in _FIELD_PATTERN.finditer(segment):
             name = field.group('fname')
